@@ -195,6 +195,13 @@ def main(tier):
                                  'out': 'supplied or not', 'queries container': 'SignatureArray or list'}))
         jobs.append(dict(path=H, fname='_c05_pairwise', params=dict(base, kind=kind), timeout=1200 if big else 300, self_reach=True, label=f'jaccarddist_pairwise over {kn}',
                          bounds={'signatures': f'1..{base["maxr"]}', 'indices': f'None, empty, up to {base["maxsel"] + 1} indices with repeats', 'flat': 'both', 'out': 'supplied or not'}))
+    if not big:
+        # long selections (3 / 4 indices with repeats and any order) on the array-backed container, fixed sizes
+        long_ = {'maxq': 1, 'maxr': 3, 'maxsel': 3, 'kind': 0, 'longsel': 1}
+        jobs.append(dict(path=H, fname='_c05_matrix', params=long_, timeout=300, self_reach=True, label='jaccarddist_matrix refs in SignatureArray, selections of 3 indices',
+                         bounds={'queries': 1, 'references': 3, 'chunksize': 'None, 1..4', 'ref_indices': 'every sequence of 3 indices (repeats, any order)'}))
+        jobs.append(dict(path=H, fname='_c05_pairwise', params=dict(long_, maxr=4, maxsel=3), timeout=300, self_reach=True, label='jaccarddist_pairwise over SignatureArray, selections of 4 indices',
+                         bounds={'signatures': 4, 'indices': 'every sequence of 4 indices (repeats, any order)', 'flat': 'both'}))
     jobs.append(dict(path=H, fname='_c05_array', params=base, timeout=200, self_reach=True, label='jaccarddist_array', bounds={'references': f'0..{base["maxr"]}', 'containers': 'all three', 'query dtypes': 'u4 i4 u8 i8 u2'}))
     jobs.append(dict(path=H, fname='_c05_chunks', params={}, timeout=200, self_reach=True, label='chunk_slices', bounds={'n': '0..12', 'size': '-1..14'}))
     jobs.sort(key=lambda j: -j['timeout'])
